@@ -11,6 +11,7 @@ import GoatModel.Relayer
 import GoatModel.Bitcoin
 import GoatModel.Locking
 import GoatModel.LockingParams
+import GoatModel.Addr
 import GoatModel.Comet
 namespace Goat.World
 open Goat.Wire
@@ -59,7 +60,9 @@ def btcCrypto (o : Oracles) : Bitcoin.Crypto :=
     hash160 := fun k => (blookup o.h160 k).getD []
     tweak := fun k e => blookup o.tweak (k ++ e)
     tweakNoScript := fun k => blookup o.tweakns k
-    decodeAddr := fun a => ((o.decode.find? (·.1 == a)).map (·.2)).getD none }
+    -- withdrawal addresses are decoded by the model itself (GoatModel.Addr; every stream runs the bridge on regtest);
+    -- the `decode` oracle lines of older traces are ignored
+    decodeAddr := fun a => Addr.decodeBtcAddress .regtest a }
 
 /-! ### formatting -/
 def hexD (b : Bytes) : String := if b.isEmpty then "-" else toHex b
@@ -366,10 +369,12 @@ def step (w : W) (o : Op) : W × String :=
     (w, if o.str "net" != "regtest" && o.str "net" != "mainnet" && o.str "net" != "testnet3" && o.str "net" != "signet" then "=> err"
         else if Bitcoin.paramsValidate p then "=> ok" else "=> err")
   | "addr.decode" =>
-    let a := String.fromUTF8! (ByteArray.mk (o.bytes "str").toArray)
-    (w, match bc.decodeAddr a with
-        | some sc => "=> " ++ hexD sc
-        | none => "=> x")
+    (w, match Addr.Net.ofString (o.str "net") with
+        | none => "=> x"
+        | some net =>
+          match Addr.decodeBytes (fun _ => true) net (o.bytes "str") with
+          | some sc => "=> " ++ hexD sc
+          | none => "=> x")
   | "lock.validateparams" =>
     let p : LockingParams.RawParams :=
       { unlockDuration := o.int "unlock", exitingDuration := o.int "exit", downtimeJail := o.int "jail", maxValidators := o.int "maxvals",
